@@ -1,15 +1,10 @@
 (* Boolean form of history well-formedness, so that concrete histories (the Examples beside the
    theorems, and the histories the harness ran on the implementation) can be checked by computation. *)
 From Coq Require Import List ZArith Bool Lia.
-From IpfsLog Require Import Model.System Model.Check19 Proofs.SysProofs.
+From IpfsLog Require Import Model.System Model.Check19 Model.WfDef Proofs.SysProofs.
+From IpfsLog Require Export Model.WfDef.
 Import ListNotations.
 Open Scope Z_scope.
-
-Definition entry_eqb_full (a b : entry) : bool :=
-  N.eqb (e_hash a) (e_hash b) && N.eqb (e_logid a) (e_logid b) && N.eqb (e_payload a) (e_payload b) &&
-  list_eqb N.eqb (e_next a) (e_next b) && list_eqb N.eqb (e_refs a) (e_refs b) &&
-  (e_time a =? e_time b) && N.eqb (e_cid a) (e_cid b) && N.eqb (e_key a) (e_key b) &&
-  Bool.eqb (e_sigok a) (e_sigok b).
 
 Lemma list_eqb_N_eq l1 l2 : list_eqb N.eqb l1 l2 = true -> l1 = l2.
 Proof.
@@ -23,27 +18,6 @@ Proof.
   destruct a, b. cbn in *. apply N.eqb_eq in H1, H2, H3, H7, H8. apply list_eqb_N_eq in H4, H5.
   apply Z.eqb_eq in H6. apply Bool.eqb_prop in H9. now subst.
 Qed.
-
-Definition wf_stepb (s : sys) (o : op) : bool :=
-  match o with
-  | OAppend r payload pc h =>
-      match nth_error (s_logs s) r with
-      | None => true
-      | Some l => match append_entry l payload pc h with
-                  | None => true
-                  | Some e => forallb (fun a => negb (N.eqb (e_hash a) h) || entry_eqb_full a e) (s_univ s)
-                  end
-      end
-  | OJoin _ _ size => size <? 0
-  | _ => true
-  end.
-
-Fixpoint wfb_from (s : sys) (ops : list op) : bool :=
-  match ops with
-  | [] => true
-  | o :: ops' => wf_stepb s o && wfb_from (fst (step s o)) ops'
-  end.
-Definition wfb (ops : list op) : bool := wfb_from empty_sys ops.
 
 Lemma wf_stepb_wf s o : wf_stepb s o = true -> wf_step s o.
 Proof.
